@@ -82,6 +82,9 @@ def predicate(prop, op, il, mres, tag):
         return ("Relic.Props.C02 (cms harness tables)", mres, "the tables on the op line are not the ones the blob gives")
     if "wf=0" in tag:
         return ("Relic.Cms.SignerInfo.WF", "wf=1", "digested attribute bytes are not the SET OF encoding of the attribute list")
+    if "PAIR-MISMATCH" in il:
+        return ("Relic.Props.C02.cms_accept_implies", mres, "Verify reports a certificate that is not the one its reported signer info names "
+                "(countersignature and chain would be judged for different signers): " + il)
     if prot == "1" and il.startswith("ok"):
         thm = {"ectype": "cms_contenttype_bound", "attr-reinterpret": "cms_attr_strip_reinterpretation"}.get(
             mut.split(":", 1)[1], "cms_accept_implies")
